@@ -92,6 +92,9 @@ impl Prop for C03 {
             // streams of 10..100 KB with hundreds of small records (references with MAG/ANGLE, texts, properties), read from a FILE:
             // records and their payloads then straddle every buffer size a buffered reader may use
             GenSpec::random("large-files", tier.pick(120, 3_000)),
+            // the same reads with the process's time zone set to places far from UTC (dates in a stream are plain numbers, not instants)
+            GenSpec::random("time-zones", tier.pick(24, 600)),
+            GenSpec::random("tz-child", 0),
         ]
     }
     fn run_case(&self, cx: &mut Cx) {
@@ -138,6 +141,45 @@ impl Prop for C03 {
                 self.check(cx, &ast, &EncOpts::default(), true, "large stream read from a file");
                 cx.count("large_files_read");
                 cx.sample(|| json!({"large_file_elements": n}));
+            }
+            "time-zones" => {
+                // a child process whose TZ is set before it starts (the C library and chrono read it once) runs 40 reads of valid-date streams
+                let zone = *cx.rng.pick(&["JST-9", "EST5EDT,M3.2.0,M11.1.0", "NST3:30", "<+1245>-12:45", "UTC+12", "CET-1CEST,M3.5.0,M10.5.0/3"]);
+                match crate::rt::run::spawn_one_env("C03", cx.tier, cx.seed, "tz-child", cx.n, &cx.scratch, std::time::Duration::from_secs(60), &[("TZ", zone)]) {
+                    crate::rt::run::ChildEnd::Ok(r) => {
+                        cx.count_n("reads_under_foreign_time_zone", r.counters.get("read_ok").copied().unwrap_or(0));
+                        cx.count(&format!("time_zone.{}", zone.chars().take(6).collect::<String>()));
+                        cx.evals(r.evaluations);
+                        for v in r.violations {
+                            cx.violation(&format!("tz|{}", v.signature.splitn(2, '|').nth(1).unwrap_or("?")), json!({"TZ": zone, "child": v.detail}));
+                        }
+                    }
+                    other => cx.inconclusive(format!("time-zone child failed: {:?}", other)),
+                }
+                cx.nontrivial(cx.n ^ crate::rt::prng::strhash(zone));
+            }
+            "tz-child" => {
+              for _ in 0..40 {
+                let mut ast = rand_lib(&mut cx.rng, &cfg);
+                // valid calendar dates (that is when a time-zone conversion could apply), incl. the ends of days, months and years
+                let mut date = |rng: &mut Rng| -> [i16; 6] {
+                    match rng.below(4) {
+                        0 => [99, 12, 31, 23, 59, 59],
+                        1 => [100, 1, 1, 0, 0, 0],
+                        2 => [124, 3, 10, 2, 30, 0],
+                        _ => [rng.range(70, 137) as i16, rng.range(1, 12) as i16, rng.range(1, 28) as i16, rng.range(0, 23) as i16, rng.range(0, 59) as i16, rng.range(0, 59) as i16],
+                    }
+                };
+                let (a, b) = (date(&mut cx.rng), date(&mut cx.rng));
+                ast.dates[..6].copy_from_slice(&a);
+                ast.dates[6..].copy_from_slice(&b);
+                for st in ast.structs.iter_mut() {
+                    let (a, b) = (date(&mut cx.rng), date(&mut cx.rng));
+                    st.dates[..6].copy_from_slice(&a);
+                    st.dates[6..].copy_from_slice(&b);
+                }
+                self.check(cx, &ast, &EncOpts::default(), false, "valid dates read under a foreign time zone");
+              }
             }
             "trailing" => {
                 let ast = rand_lib(&mut cx.rng, &cfg);
